@@ -186,7 +186,8 @@ def random_temperature(rng, kind=None, tmin=150.0, tmax=3000.0):
         n = int(rng.integers(0, 3))
         return {'kind': 'npoint', 'T_surface': float(rng.uniform(tmin, tmax)), 'T_top': float(rng.uniform(tmin, tmax)),
                 'temperature_points': [float(v) for v in rng.uniform(tmin, tmax, n)],
-                'frac_points': sorted([float(v) for v in rng.uniform(0.1, 0.9, n)]),
+                # nodes at least 5 % of the pressure range apart (coinciding nodes are a licensed 'excessive slope' rejection)
+                'frac_points': [float(v) for v in (np.sort(rng.uniform(0.1, 0.8, n)) + 0.05 * np.arange(n))],
                 'smoothing_window': int(rng.choice([1, 5, 10, 30]))}
     if kind == 'guillot':
         return {'kind': 'guillot', 'T_irr': float(rng.uniform(500, 2500)), 'kappa_irr': float(10 ** rng.uniform(-3, -1)),
